@@ -190,9 +190,12 @@ class Check:
         if self.violations:
             return EXIT_VIOLATION
         if harness_errors:
+            # an exception escaping the code under execution: reported, counted as inconclusive; fatal only if the whole
+            # check is affected (then nothing it says can be trusted)
             for o, r in harness_errors[:5]:
-                print("  HARNESS ERROR in %s: %s\n%s" % (o["name"], r.get("reason"), r.get("trace", "")))
-            return EXIT_HARNESS
+                print("  EXCEPTION in %s: %s\n%s" % (o["name"], r.get("reason"), r.get("trace", "")[-600:]))
+            if len(harness_errors) * 2 > max(1, n_ob) or any(r.get("fatal") for _, r in harness_errors):
+                return EXIT_HARNESS
         if n_dis == 0 and not self.known_hits:
             print("  nothing discharged: the check is blind")
             return EXIT_HARNESS
